@@ -248,21 +248,35 @@ def proxy_level(target):
     offset = lo < 0 and c.kind != "no_offset"
     vals = sorted(set(c.members.values())) if c.kind == "enum" else deviate.range_alphabet(lo, hi, 0)
     vs, n = [], 0
-    for slot in (0, 3):
+    for slot, depth in ((0, 1), (3, 1), (0, 2), (2, 3)):
         for v in vals:
             for ctxname in ("object", "synth", "project", "clone"):
                 n += 1
                 mm = rv.m.MetaModule()
-                inner = mm.project.new_module(cls_of(tkey))
+                host = mm
+                # depth > 1: the proxy mirrors a proxy of a nested MetaModule ... which mirrors the target
+                chain = []
+                for _lvl in range(depth - 1):
+                    child = host.project.new_module(rv.m.MetaModule)
+                    chain.append((host, child))
+                    host = child
+                inner = host.project.new_module(cls_of(tkey))
                 # the proxy mirrors its target: give the TARGET the value, then let the MetaModule pick it up
                 # (assigning through the proxy is a different operation -- it drives the target -- and is not used here)
                 setattr(inner, c.attr, getattr(cls_of(tkey), c.enum)(v) if c.kind == "enum" else bool(v) if c.kind == "bool" else v)
-                mm.user_defined_controllers = slot + 1
-                mp = mm.mappings.values[slot]
+                host.user_defined_controllers = slot + 1
+                mp = host.mappings.values[slot]
                 mp.module, mp.controller = inner.index, cidx
-                mm.update_user_defined_controllers()
+                host.update_user_defined_controllers()
+                for parent, child in reversed(chain):
+                    parent.user_defined_controllers = slot + 1
+                    mp = parent.mappings.values[slot]
+                    mp.module, mp.controller = child.index, 5 + slot
+                    parent.update_user_defined_controllers()
                 name = f"user_defined_{slot + 1}"
                 key = {"proxy_of": f"{tkey}.{cname}", "ctx": ctxname, "kind": c.kind}
+                if depth > 1:
+                    key["depth"] = depth
                 case = {"proxy_level": list(target)}
                 got0 = getattr(mm, name)
                 if int(getattr(got0, "value", got0)) != v:
